@@ -256,6 +256,17 @@ theorem tiles_mem (g : GridSpec) (tol : Rat) (q : BBox) (k : Int × Int) :
   · rintro ⟨h1, h2, h3, h4⟩
     exact ⟨k.2, ⟨h3, h4⟩, k.1, ⟨h1, h2⟩, rfl⟩
 
+/-- `tiles(bounds)` yields every tile index at most once -/
+theorem tiles_nodup (g : GridSpec) (tol : Rat) (q : BBox) : (g.tiles id tol q).Nodup := by
+  unfold GridSpec.tiles
+  rw [List.nodup_flatMap]
+  refine ⟨fun iy _ => List.Nodup.map (fun i j h => by simpa using h) (rangeI_nodup _ _), ?_⟩
+  apply List.Pairwise.imp_of_mem _ (rangeI_nodup _ _)
+  intro a b _ _ hab
+  simp only [Function.onFun, List.disjoint_left, List.mem_map]
+  rintro k ⟨i, _, rfl⟩ ⟨j, _, h⟩
+  exact hab (by simpa using (congrArg Prod.snd h).symm)
+
 /-- bounding-box query: returns exactly the tiles overlapping the query shrunk by the tolerance -/
 theorem bbox_query_exact (hg : GridSpec.new id ny nx rx ry ox oy fx fy = .ok g) (tol : Rat) (q : BBox)
     (hx : q.left + tol ≤ q.right - tol) (hy : q.bottom + tol ≤ q.top - tol) (k : Int × Int) :
@@ -550,5 +561,25 @@ example : ∃ g, GridSpec.webTiles id 3 (2 : Nat) 256 = .ok g := by
   exact (gridspec_new_ok_iff _ _ _ _ _ _ _ _).mpr ⟨by norm_num [rabs, pow2], by norm_num [rabs, pow2]⟩
 
 end web
+
+
+/-! ## non-vacuity of the hypotheses used above -/
+
+example : ∃ g, GridSpec.new id 2 3 (-3 / 4) (1 / 4) (-3 / 4) (5 / 2) true false = .ok g :=
+  (gridspec_new_ok_iff _ _ _ _ _ _ _ _).mpr ⟨by norm_num [rabs], by norm_num [rabs]⟩
+
+example : ∃ g', GridSpec.fromSampleTile id ⟨0, 0, 5, 5⟩ 10 10 2 3 true false = .ok g' := by
+  obtain ⟨g', h, _⟩ := from_sample_tile_sample ⟨0, 0, 5, 5⟩ (ny := 10) (nx := 10) 2 3 true false
+    (by norm_num) (by norm_num) (by norm_num) (by norm_num)
+  exact ⟨g', h⟩
+
+/-- a box query of tile size satisfies the width hypothesis of `idx_bounds_exact` for the real tolerance -/
+example : (0 : Rat) + tol8 ≤ 5 - tol8 := by norm_num [tol8]
+
+/-- the `disjoint` contract of the polygon theorems is satisfiable for every point set -/
+example (poly : Rat × Rat → Prop) :
+    ∃ dj : GeoBox → Bool, ∀ gb, dj gb = true ↔ ¬ ∃ p, poly p ∧ gb.covers p := by
+  classical
+  exact ⟨fun gb => decide (¬ ∃ p, poly p ∧ gb.covers p), fun gb => by simp⟩
 
 end OdcGeo.C14
